@@ -212,6 +212,19 @@ func runMergePlan(c *Ctx, i int, rng *rand.Rand, class string, slice int) {
 			o.NoDupIDs = true
 		}
 		b := model.Gen(rng, cl, o)
+		if (slice == sliceStored || slice == sliceDec) && class == "different" && l == 0 && (i/len(planClasses))%3 == 0 {
+			// stored records whose header lengths run across multiples of 128
+			b = model.GenMetaSweep(rng, o.IDPrefix)
+			cl = "metasweep"
+			c.R.Inc("leaves_sweeping_record_header_lengths", 1)
+		}
+		if slice == sliceThes && class == "same-nodrops" {
+			// no deletions in this class: every leaf defines the same term with the same
+			// number of synonyms, so the merged pair count is an exact multiple of it
+			n := []int{1024, 512, 1023, 2048, 1025, 256}[(i/len(planClasses))%6]
+			model.AddBigSynonymDoc(b, fmt.Sprintf("s%d-bigsyn", l), model.ThesPool[0], "big", n)
+			c.R.Inc("leaves_with_a_big_synonym_list", 1)
+		}
 		batches = append(batches, b)
 		leafDesc = append(leafDesc, fmt.Sprintf("%s(%d docs)", cl, len(b.Docs)))
 	}
